@@ -541,6 +541,24 @@ def one_input(ctx, inp, cid, tmp, heavy=True):
                 ctx.violation(f"GeoNetwork.save-Load:grid-differs:{icls}",
                               {}, cid)
 
+        # "constant unit weights" (type None) requested over weights that
+        # were assigned by hand: weights, total and mean are those of ones
+        oku, unet = ctx.call(GeoNetwork, gg, adjacency=A, directed=d,
+                             node_weight_type=None, silence_level=3)
+        if oku:
+            ctx.count("paths_checked")
+            unet.node_weights = np.arange(1.0, n + 1.0)
+            oks, e = ctx.call(unet.set_node_weight_type, None)
+            nw = unet.node_weights
+            if oks and (nw is None or not np.array_equal(nw, np.ones(n))
+                        or abs(unet.total_node_weight - n) > 1e-9 * n
+                        or abs(unet.mean_node_weight - 1) > 1e-9):
+                ctx.violation("GeoNetwork.set_node_weight_type(None):"
+                              f"weights-total-mean!=unit:{icls}",
+                              {"got": nw,
+                               "total": unet.total_node_weight,
+                               "mean": unet.mean_node_weight}, cid)
+
         # several networks on ONE grid object, with different geographic
         # weight types in turn: each has the weights of its own type
         cl = np.cos(np.float32(lat) * np.pi / 180).astype(float)
